@@ -207,8 +207,8 @@ jobs += [
     enc_validate_or_filter_utf8(buf, buf + n, repl);
     VERIF_REACH;
 ''', witness=dict(bufs=['in'], vals=['repl']), replay='c14enc:filter_utf8', replay_link=['-L{BUILD}/booster', '-lbooster']),
-    dict(name='enc_validate_or_filter_utf8', props=P, enforce='enc_validate_or_filter_utf8', tier='thorough',
-         replace=['utf8_next', 'snk_reset', 'snk_append_seq', 'snk_append_tiled', 'snk_put_repl_u8'], timeout=900, cost=10, object_bits=10,
+    dict(name='enc_validate_or_filter_utf8', props=P, enforce='enc_validate_or_filter_utf8', tier='thorough', optional=True,
+         replace=['utf8_next', 'snk_reset', 'snk_append_seq', 'snk_append_tiled', 'snk_put_repl_u8'], timeout=400, cost=10, object_bits=10,
          harness=r'''
     SYM_BUF(char, buf, n, BUF_CAP);
     size_t k; g_u8_k = k; char repl; bool touched; snk_touched = touched;
